@@ -75,6 +75,7 @@ fn err_code(e: ZeroCopyCreationError) -> u64 {
 }
 
 const BEGIN: u64 = 1 << 40;
+const LEAK: u64 = 1 << 41;   // timeline only: the port made by op (code - LEAK) died
 
 // ---------------- gate filter ----------------
 static LOCK_CELL: AtomicUsize = AtomicUsize::new(0);
@@ -95,6 +96,8 @@ fn filter_pl(a: &Access) -> u8 {
         if (a.kind == Kind::Cell && a.addr == VALUE_CELL.load(O::Relaxed)) || is_init_store(a) { FILTER_LOG } else { FILTER_SKIP }
     } else if is_state_byte(a) || is_own_flag(a) { FILTER_GATE } else { FILTER_SKIP }
 }
+/// one thread only (sequential histories): same classification, nothing parks
+fn filter_pl_seq(a: &Access) -> u8 { if filter_pl(a) == FILTER_SKIP { FILTER_SKIP } else { FILTER_LOG } }
 fn filter_discover(a: &Access) -> u8 { if a.kind == Kind::Cell || is_state_byte(a) || is_init_store(a) { FILTER_LOG } else { FILTER_SKIP } }
 /// posix_shared_memory storage: state byte, SharedMemory::has_ownership, and the harness' own op-start gate
 fn filter_shm(a: &Access) -> u8 {
@@ -137,7 +140,7 @@ where C::Configuration: Send + 'static, C::Sender: 'static, C::Receiver: 'static
                     ports.push(None);
                 }
                 Op::Leak(j) => {
-                    if let Some(p) = ports.get_mut(j).and_then(|x| x.take()) { core::mem::forget(p); }
+                    if let Some(p) = ports.get_mut(j).and_then(|x| x.take()) { core::mem::forget(p); ret(LEAK + j as u64); }
                     ports.push(None);
                 }
                 Op::Force(role) => {
@@ -175,12 +178,14 @@ fn emit(prog: &[Vec<Op>], ex: &Exec, exists_final: bool, out: &mut impl Write) {
     let mut in_cs = vec![false; nt]; let mut derefs = vec![0u64; nt]; let mut first_init = vec![0usize; nt];
     let mut cs_site = vec![String::new(); nt];
     let mut cur_op = vec![0usize; nt];
+    let mut pending_begin: Vec<bool> = vec![false; nt];   // an op begins (for the timeline) with its first access
     let mut inc_of: std::collections::HashMap<usize, usize> = std::collections::HashMap::new();
     let mut next_inc = 0usize;
     for r in &ex.log {
         match r {
             Rec::Acc { tid, file, line, addr, width, kind, ord, ord_fail, rd, wr, ok } => {
                 let t = *tid;
+                if pending_begin[t] { pending_begin[t] = false; timeline.push(format!("b:{}:{}", t, cur_op[t])); }
                 let f = file.rsplit('/').next().unwrap_or(file);
                 if *kind == Kind::Cell && *addr == lock {
                     if !in_cs[t] { in_cs[t] = true; derefs[t] = 0; first_init[t] = 0; cs_site[t] = format!("{}:{}", f, line); }
@@ -202,9 +207,13 @@ fn emit(prog: &[Vec<Op>], ex: &Exec, exists_final: bool, out: &mut impl Write) {
                 }
             }
             Rec::Ret { tid, code } => {
-                if *code == u64::MAX { lines.push(format!("R {} P", tid)); timeline.push(format!("e:{}:{}:999", tid, cur_op[*tid])); }
-                else if *code >= BEGIN { cur_op[*tid] = (*code - BEGIN) as usize; timeline.push(format!("b:{}:{}", tid, cur_op[*tid])); }
-                else { lines.push(format!("R {} {}", tid, code)); timeline.push(format!("e:{}:{}:{}", tid, cur_op[*tid], code)); }
+                if *code >= LEAK && *code != u64::MAX { timeline.push(format!("l:{}:{}", tid, *code - LEAK)); }
+                else if *code >= BEGIN && *code != u64::MAX { cur_op[*tid] = (*code - BEGIN) as usize; pending_begin[*tid] = true; }
+                else {
+                    if pending_begin[*tid] { pending_begin[*tid] = false; timeline.push(format!("b:{}:{}", tid, cur_op[*tid])); }
+                    if *code == u64::MAX { lines.push(format!("R {} P", tid)); timeline.push(format!("e:{}:{}:999", tid, cur_op[*tid])); }
+                    else { lines.push(format!("R {} {}", tid, code)); timeline.push(format!("e:{}:{}:{}", tid, cur_op[*tid], code)); }
+                }
             }
         }
     }
@@ -276,6 +285,11 @@ fn programs() -> Vec<Vec<Vec<Op>>> {
         v.push(vec![vec![Create(S, 0), IsConn(0)], vec![Create(R, k), Drop(0)]]);
         v.push(vec![vec![Create(S, k), Drop(0)], vec![Create(R, 0), Drop(0)]]);
     }
+    // a dead sender / receiver cleaned up by two racing cleaners, then re-created
+    v.push(vec![vec![Create(S, 0), Leak(0), Force(S), Create(S, 0)], vec![Force(S)]]);
+    v.push(vec![vec![Create(R, 0), Leak(0), Force(R), Create(R, 0)], vec![Force(R), Create(S, 0)]]);
+    v.push(vec![vec![Create(S, 0), Leak(0), Create(S, 0)], vec![Force(S)], vec![Force(S)]]);
+    v.push(vec![vec![Create(S, 0), Leak(0)], vec![Create(R, 0), Drop(0), Create(R, 0)], vec![Force(S)]]);
     // three threads
     let small: Vec<Vec<Op>> = vec![vec![Create(S, 0)], vec![Create(R, 0)], vec![Create(S, 0), Drop(0)], vec![Create(R, 0), Drop(0)], vec![Force(S)], vec![Create(R, 3)]];
     for i in 0..small.len() { for j in i..small.len() { for k in j..small.len() { v.push(vec![small[i].clone(), small[j].clone(), small[k].clone()]); } } }
@@ -362,9 +376,10 @@ fn main() {
         "seq" => {
             let maxlen: usize = a[2].parse().unwrap(); let shard: usize = a[3].parse().unwrap(); let nsh: usize = a[4].parse().unwrap();
             let mut n = 0usize;
+            set_filter(filter_pl_seq);
             for len in 1..=maxlen {
                 // all six mismatch kinds (+ the equal-completion-queue variant) up to length 3, one representative beyond
-                let mism: Vec<usize> = if len <= 3 { (1..=7).collect() } else { vec![1 + (len % 6)] };
+                let mism: Vec<usize> = if len <= 2 { (1..=7).collect() } else { vec![1 + (len % 6)] };
                 for h in seq_histories(len, &mism) {
                     n += 1;
                     if n % nsh != shard { continue; }
@@ -416,7 +431,7 @@ fn main() {
                     Rec::Acc { tid, file, line, kind, rd, wr, ok, .. } =>
                         { let _ = writeln!(out, "E {} {}:{} {} rd={} wr={} ok={}", tid, file.rsplit('/').next().unwrap_or(file), line, kind_name(*kind), rd, wr, *ok as u8); }
                     Rec::Ret { tid, code } =>
-                        { if *code >= BEGIN && *code != u64::MAX { let _ = writeln!(out, "B {} op{}", tid, code - BEGIN); } else { let _ = writeln!(out, "R {} result={} does_exist={}", tid, code / 2, code & 1); } }
+                        { if *code >= LEAK && *code != u64::MAX { let _ = writeln!(out, "L {} port-of-op{} leaked", tid, code - LEAK); } else if *code >= BEGIN && *code != u64::MAX { let _ = writeln!(out, "B {} op{}", tid, code - BEGIN); } else { let _ = writeln!(out, "R {} result={} does_exist={}", tid, code / 2, code & 1); } }
                 }
             }
             let _ = writeln!(out, "S {}", ex.choices.iter().map(|c| c.to_string()).collect::<Vec<_>>().join(","));
